@@ -54,13 +54,15 @@ impl<'a> Tape<'a> {
         (0..n).map(|_| self.u8()).collect()
     }
     /// Emplacer route bytes (0xF7 is reserved for the known-finding probe). One byte in sixteen
-    /// selects the loose-size_hint iterator route (0xF5).
+    /// selects the loose-size_hint iterator route (0xF5), one in thirty-two the iterator whose exact
+    /// size_hint over-reports (0xF3).
     pub fn route(&mut self, n: usize) -> Vec<u8> {
         (0..n)
             .map(|_| self.u8())
             .map(|b| match b {
                 0xF7 => 0xF6,
                 b if b % 16 == 5 => 0xF5,
+                b if b % 32 == 3 => 0xF3,
                 b => b,
             })
             .collect()
@@ -68,7 +70,7 @@ impl<'a> Tape<'a> {
     /// Routes for assign_in_place: only emplacers that know their length up front (a FromIterator over
     /// an iterator with a loose size_hint cannot be transactional - known finding C18|unknown-length-iterator).
     pub fn route_exact(&mut self, n: usize) -> Vec<u8> {
-        (0..n).map(|_| self.u8()).map(|b| if b == 0xF7 || b == 0xF5 { 0xF6 } else { b }).collect()
+        (0..n).map(|_| self.u8()).map(|b| if b == 0xF7 || b == 0xF5 || b == 0xF3 { 0xF6 } else { b }).collect()
     }
     pub fn consumed(&self) -> usize {
         self.pos
